@@ -124,13 +124,17 @@ type World struct {
 	ExitCode int
 	Exited   bool
 
-	Stdout    []byte
-	Stderr    []byte
-	nextH     int
-	openH     int // handles opened and not yet closed
-	MaxOpenH  int // high-water mark of openH
-	FiredSeq  []int
-	stickyErr syscall.Errno
+	Stdout      []byte
+	Stderr      []byte
+	sigHandlers map[string][]sigHandler
+	sigIgnored  map[string]bool
+	// SignalsNotified: the program installed or ignored a signal handler
+	SignalsNotified bool
+	nextH           int
+	openH           int // handles opened and not yet closed
+	MaxOpenH        int // high-water mark of openH
+	FiredSeq        []int
+	stickyErr       syscall.Errno
 	// OutEvents records the order of stream writes: (seq, fd, n)
 	stdinPos      int
 	stdinErr      syscall.Errno
@@ -396,9 +400,86 @@ func (w *World) begin(name, path string) (op *Op, flt *Fault, ok bool) {
 	}
 	if f, has := w.faultAt[seq]; has {
 		ff := f
+		if ff.Kind == "signal" {
+			// a signal arrives just before this operation; the operation itself
+			// then proceeds normally (unless the signal terminates the process)
+			w.deliverSignal(op, &ff)
+			return op, nil, true
+		}
 		return op, &ff, true
 	}
 	return op, nil, true
+}
+
+// ---------------------------------------------------------------------------
+// signals
+
+type sigHandler struct {
+	key     interface{}
+	deliver func()
+}
+
+// NotifySignal registers a handler (signal.Notify): deliver is called, on the
+// goroutine that executes the struck operation, when the named signal arrives.
+func (w *World) NotifySignal(name string, key interface{}, deliver func()) {
+	if w.sigHandlers == nil {
+		w.sigHandlers = map[string][]sigHandler{}
+	}
+	w.sigHandlers[name] = append(w.sigHandlers[name], sigHandler{key, deliver})
+	w.SignalsNotified = true
+}
+
+// StopSignals removes every handler registered under key (signal.Stop).
+func (w *World) StopSignals(key interface{}) {
+	for name, hs := range w.sigHandlers {
+		var keep []sigHandler
+		for _, h := range hs {
+			if h.key != key {
+				keep = append(keep, h)
+			}
+		}
+		w.sigHandlers[name] = keep
+	}
+}
+
+// IgnoreSignal / ResetSignal implement signal.Ignore and signal.Reset.
+func (w *World) IgnoreSignal(name string) {
+	if w.sigIgnored == nil {
+		w.sigIgnored = map[string]bool{}
+	}
+	w.sigIgnored[name] = true
+	delete(w.sigHandlers, name)
+	w.SignalsNotified = true
+}
+
+func (w *World) ResetSignal(name string) {
+	delete(w.sigIgnored, name)
+	delete(w.sigHandlers, name)
+}
+
+func (w *World) SignalIgnored(name string) bool { return w.sigIgnored[name] }
+
+func (w *World) deliverSignal(op *Op, f *Fault) {
+	name := f.Errno
+	if name == "" {
+		name = "SIGTERM"
+	}
+	op.Fault = "signal"
+	w.FiredSeq = append(w.FiredSeq, op.Seq)
+	if w.sigIgnored[name] {
+		return
+	}
+	if hs := w.sigHandlers[name]; len(hs) > 0 {
+		for _, h := range hs {
+			h.deliver()
+		}
+		return
+	}
+	// default action of SIGINT/SIGTERM/SIGHUP/SIGQUIT: the process dies here
+	op.Err = "KILLED"
+	w.Frozen = true
+	w.Killed = true
+	panic(Kill{AtOp: op.Seq})
 }
 
 func (w *World) end(op *Op) {
